@@ -712,9 +712,29 @@ func c06r5(c *Ctx) {
 		for _, f := range fieldsOf(xc) {
 			_, ok := reads[f]
 			c.Check("XdsCacheImpl."+m+" covers "+f.Name(), fn.Pos(), ok, "typed cache "+f.Name()+" is not touched by XdsCacheImpl."+m)
+			// ... on every path: no condition decides whether a typed cache is invalidated at all (which entries go is
+			// decided by the typed cache's own dependency index)
+			f := f
+			isClearOfF := func(i ssa.Instruction) bool {
+				call, isCall := i.(*ssa.Call)
+				if !isCall || !call.Call.IsInvoke() {
+					return false
+				}
+				if n := call.Call.Method.Name(); n != "Clear" && n != "ClearAll" {
+					return false
+				}
+				return fieldOfLoad(call.Call.Value) == f
+			}
+			bad, found := pathAvoidingE(fn.Blocks[0], nil, isClearOfF, isReturn, nil, nil)
+			pos := fn.Pos()
+			if found && bad != nil {
+				pos = bad.Pos()
+			}
+			c.Check("XdsCacheImpl."+m+" clears "+f.Name()+" on every path", pos, !found,
+				"XdsCacheImpl."+m+" can return without calling Clear / ClearAll on the typed cache "+f.Name()+": whether a kind of change invalidates entries of that cache is decided by the entries' dependency index (SDS entries depend on Secrets and ConfigMaps, CDS entries on services and DestinationRules ...), not by a kind test in front of it; a change of a kind the test forgets leaves entries derived from the old state in the cache, and they are served for newer snapshots")
 		}
 	}
-	c.Floor(12)
+	c.Floor(20)
 }
 
 
